@@ -376,6 +376,46 @@ func (e *env) runKey(idx int, k, other kp, rng *mrand.Rand) {
 	}
 	defer wg.Wait()
 
+	// --- subjects that differ only in the spelling of a field (hand-issued / migrated certificates of the
+	// client CA): leading zeros in the id, upper-case hex in the hash. Different subjects, different tokens.
+	if cn := name("subject-spellings"); r.WantCase(cn) {
+		h := sha256.Sum256(k.pub)
+		base := pki.MakeSubjectV2(1+rng.Uint64()%1000000, h[:])
+		variants := []string{base.CommonName, strings.Replace(base.CommonName, "v2:", "v2:0", 1), strings.Replace(base.CommonName, "v2:", "v2:000", 1)}
+		if parts := strings.SplitN(base.CommonName, ":", 3); len(parts) == 3 && strings.ToUpper(parts[2]) != parts[2] {
+			variants = append(variants, parts[0]+":"+parts[1]+":"+strings.ToUpper(parts[2]))
+		}
+		tokens := map[string]string{}
+		for _, v := range variants {
+			sub := base
+			sub.CommonName = v
+			der, gerr := pki.GenerateCertificate(e.logger, e.ourCA, pki.IdentityRequest{PublicKey: k.pub, Subject: sub})
+			if gerr != nil {
+				continue // the CA itself refuses the spelling: nothing to tell apart
+			}
+			c, perr := x509.ParseCertificate(der)
+			if perr != nil {
+				continue
+			}
+			ident, ierr := func() (id *pki.Identity, err error) {
+				defer func() {
+					if p := recover(); p != nil {
+						err = fmt.Errorf("panic: %v", p)
+					}
+				}()
+				return pki.ExtractCertificateIdentity(c)
+			}()
+			r.Case(fmt.Sprintf("subject-spelling/%d/identity=%v", len(tokens), ierr == nil))
+			if ierr != nil {
+				continue // no identity for this spelling: nothing shared
+			}
+			if prev, dup := tokens[string(ident.Token)]; dup && prev != c.Subject.String() {
+				r.Violation("token:not-unique-to-subject", cn, fmt.Sprintf("subjects %q and %q (both issued by the client CA) yield the same token %q", prev, c.Subject.String(), ident.Token), nil)
+			}
+			tokens[string(ident.Token)] = c.Subject.String()
+		}
+	}
+
 	// --- validity classes: a certificate outside its validity window. The x509 verifier
 	// looks at the dates before it looks at the chain, so these are the cases in which a
 	// foreign issuer could slip through. A foreign-CA certificate must never be renewed;
